@@ -125,6 +125,30 @@ def setattr_delegate_case(case):
     leaked = _sys.getrefcount(P) - r0
     if leaked:
         violated.append("%d failed assignments into a delegation cycle leaked %d references to the delegate attribute name" % (n, leaked))
+    # -- C18: the delegate may be computed on every access (a property / method returning a new object)
+    prog = r"""
+from traits.api import HasTraits, DelegatesTo, Property, Int
+class D(HasTraits):
+    x = Int(1)
+class A(HasTraits):
+    d = Property()
+    def _get_d(self):
+        return D()
+    x = DelegatesTo('d')
+a = A()
+for i in range(50):
+    try:
+        a.x = 5
+    except Exception as e:
+        pass
+print("RESULT survived")
+"""
+    import os
+    os.environ["PYTHONMALLOC"] = "debug"
+    rc, out, err = _child(prog)
+    if rc < 0 or "RESULT survived" not in out:
+        violated.append("assigning through DelegatesTo whose delegate is computed on access (a new object each time) ended the "
+                        "interpreter: returncode %r (use of the delegate after its last reference was dropped)" % rc)
     return dict(reproduced=bool(violated), violated=violated)
 
 
